@@ -33,9 +33,19 @@ func sectionOf(snapshot, from, to string) string {
 }
 
 func scenarioC13(c *Ctx) {
-	w := NewWorld(3, 2, 1)
-	me := w.Users[0]
-	round := "round-c13"
+	c13Run(c, NewWorld(3, 2, 1), 0, "round-c13", true, false)
+	if !c.Quick() {
+		// every observer, further sizes, and a second crash while the message is handled again
+		c13Run(c, NewWorld(3, 2, 1), 0, "round-c13-d", false, true)
+		c13Run(c, NewWorld(3, 2, 1), 1, "round-c13-o1", false, false)
+		c13Run(c, NewWorld(3, 2, 1), 2, "round-c13-o2", false, true)
+		c13Run(c, NewWorld(4, 3, 2), 0, "round-c13-n4", false, false)
+		c13Run(c, NewWorld(2, 2, 3), 1, "round-c13-n2", false, true)
+	}
+}
+
+func c13Run(c *Ctx, w *World, meIdx int, round string, doPoll bool, double bool) {
+	me := w.Users[meIdx]
 	h := w.Honest(round, me)
 	fail := func(kind string, sig map[string]interface{}, what string, rep map[string]interface{}) {
 		sig["kind"] = kind
@@ -58,6 +68,10 @@ func scenarioC13(c *Ctx) {
 	for i := range h {
 		for k := 0; k < len(writes[i]); k++ {
 			items := append(append([]Item{}, h[:i]...), crashItem(h[i], k))
+			if double {
+				// killed again while the message is handled for the second time
+				items = append(items, crashItem(h[i], (k+1)%len(writes[i])))
+			}
 			items = append(items, h[i:]...) // the message is delivered again after the restart, then the rest
 			after, before := "start of handling", writes[i][k]
 			if k > 0 {
@@ -110,7 +124,7 @@ func scenarioC13(c *Ctx) {
 			items := append(append([]Item{}, h[:4]...), crashResultItem(res, k))
 			kk := k
 			total++
-			cases = append(cases, HistCase{Kind: "crash-result", User: me, Items: items, PrefixKey: "result-crash", Check: func(ob RunObs) {
+			cases = append(cases, HistCase{Kind: "crash-result", User: me, Items: items, PrefixKey: "result-crash-" + round, Check: func(ob RunObs) {
 				posted := strings.Count(sectionOf(ob.After, " BOARD ", ""), "[") - strings.Count(sectionOf(ob.Before, " BOARD ", ""), "[")
 				stillPending := strings.Contains(sectionOf(ob.After, " VIS ", " SIGS"), opProj)
 				if posted < len(d.ResultMsgs) && !stillPending {
@@ -125,6 +139,9 @@ func scenarioC13(c *Ctx) {
 
 	// the real Poll loop: the node is killed while handling the first message of the board; after the
 	// restart the loop must fetch that message again (offset saved only after handling)
+	if !doPoll {
+		return
+	}
 	for _, k := range []int{0, 1} {
 		e := NewNodeEnv(newEnvDir(c), me)
 		e.Rounds[round] = true
